@@ -36,9 +36,16 @@ static struct vclass v_len = {"ntop/length", 0, 0}, v_colon = {"ntop/leading-col
     v_idem = {"ntop/not-idempotent", 0, 0};
 static long n_addr, n_strings, n_idem_strings;
 
+/* The oracle's own IPv4 predicate, written from the documentation (::a.b.c.d and ::ffff:a.b.c.d with a non-zero upper half are printed as a
+ * dotted quad, which reads back as the mapped form) - not the tree's irc_inaddr_is_ipv4 macro, which is part of what is being checked. */
+static int vh_is_ipv4(const irc_inaddr *a)
+{
+    return !a->in6[0] && !a->in6[1] && !a->in6[2] && !a->in6[3] && !a->in6[4] && a->in6[6] && (!a->in6[5] || a->in6[5] == 65535);
+}
+
 static void canon(irc_inaddr *a)
 {
-    if (irc_inaddr_is_ipv4(*a))
+    if (vh_is_ipv4(a))
         a->in6[5] = 65535;
 }
 
